@@ -424,6 +424,10 @@ class OutgoingBallsHandler(BallDeviceStateHandler):
             result = await self._handle_confirm(eject_request, ball_eject_process, incoming_ball_at_target,
                                                 eject_try)
             await self.ball_device.ball_count_handler.end_eject(ball_eject_process, result)
+            if result:
+                # the count no longer includes the ejected ball. leave the states in which
+                # BallDevice.balls subtracts it (otherwise balls is one too low, e.g. -1)
+                self.ball_device.set_eject_state("eject_confirmed")
 
             # Check if more balls left than expected, meaning the ejector kicked out multiple
             # balls. If so, tag those missing balls as lost (except for mechanical ejects, which
